@@ -48,7 +48,8 @@ class C16(Check):
                 k = rng.randint(1, 4)       # around k further segments
                 n = max(0, (mbx - 16) + k * (mbx - 9) + rng.choice([0, 0, 0, -1, 1, -7, -6, rng.randint(-8, 8)]))
             kind = rng.choice(["up", "down"])
-            out.append({"kind": kind, "n": n, "mbx": mbx, "sub": rng.choice([None, 0, 1, 7, 255]), "delay": rng.choice([0, 0, 1, 3]),
+            mbx_in = mbx if rng.random() < 0.6 else rng.choice([24, 32, 48, 64, 128, 256])     # the two mailboxes need not have one size
+            out.append({"kind": kind, "n": n, "mbx": mbx, "mbx_in": mbx_in, "sub": rng.choice([None, 0, 1, 7, 255]), "delay": rng.choice([0, 0, 1, 3]),
                         "unrelated": rng.choice([0, 0, 0, 1, 2]) if kind == "up" else 0, "seed": rng.randrange(1 << 30)})
         return out
 
@@ -62,17 +63,18 @@ class C16(Check):
         from ebpfcat.ethercat import Terminal, EtherCatError
         val = self.value(case)
         index, sub, mbx = 0x8000 + (case["seed"] & 0xff), case["sub"], case["mbx"]
+        mbx_in = case.get("mbx_in", mbx)          # "mbx": the mailbox the master writes, "mbx_in": the one it reads
 
         async def go():
             ec = SimpleEtherCat("verif0")
             sim = SimTerminal(station=1005)
-            srv = SdoServer(0x1000, mbx, 0x1400, mbx, delay=case["delay"], unrelated=case["unrelated"])
+            srv = SdoServer(0x1000, mbx, 0x1400, mbx_in, delay=case["delay"], unrelated=case["unrelated"])
             sim.mailbox = srv
             attach(ec, SimBus([sim]))
             t = Terminal(ec)
             t.position = 1005
             t.mbx_lock = ec.get_mbx_lock(1005)
-            t.mbx_out_off, t.mbx_out_sz, t.mbx_in_off, t.mbx_in_sz = 0x1000, mbx, 0x1400, mbx
+            t.mbx_out_off, t.mbx_out_sz, t.mbx_in_off, t.mbx_in_sz = 0x1000, mbx, 0x1400, mbx_in
             key = (index, "CA" if sub is None else sub)
             res = None
             try:
@@ -99,7 +101,7 @@ class C16(Check):
         if case["kind"] == "down":
             csub = "None" if sub is None else f"(Some {cz(sub)})"
             return f"(run_dl {cnat(case['mbx'])} {czlist(val)} {cz(index)} {csub})"
-        return f"(run_ul {cnat(case['mbx'])} {czlist(val)} {cz(index)} {cz(1 if sub is None else sub)} {cbool(sub is None)})"
+        return f"(run_ul {cnat(case.get('mbx_in', case['mbx']))} {czlist(val)} {cz(index)} {cz(1 if sub is None else sub)} {cbool(sub is None)})"
 
     def model_value(self, case, o):
         val = self.value(case)
@@ -123,8 +125,9 @@ class C16(Check):
             if tg != (0x10 if k % 2 else 0):
                 return f"segment toggle bits {o['toggles']} do not alternate starting at 0"
         for d, n in o["messages"]:
-            if n > case["mbx"]:
-                return f"mailbox message of {n} bytes in a {case['mbx']}-byte mailbox"
+            size = case["mbx"] if d == "out" else case.get("mbx_in", case["mbx"])
+            if n > size:
+                return f"mailbox message of {n} bytes in a {size}-byte mailbox"
         prev = None
         for c in o["counters"]:
             if prev is not None and c != prev % 7 + 1:
@@ -146,7 +149,7 @@ class C16(Check):
 
     def rule(self):
         return ("downloads and uploads of values of 0..5 mailbox sizes (30% tiny, 30% around the first-message capacity, 40% around k further segments +-8 bytes), "
-                "mailbox sizes 24..256, with subindex or complete access, responses delayed by 0-3 status polls, 0-2 unrelated mails before an upload response; "
+                "mailbox sizes 24..256 (40%: write and read mailbox of different sizes), with subindex or complete access, responses delayed by 0-3 status polls, 0-2 unrelated mails before an upload response; "
                 "corpus: all boundary lengths for 3 mailbox sizes; non-trivial = at least two mailbox messages sent")
 
     def distribution(self, cases, observed):
